@@ -229,7 +229,15 @@ pub(super) fn eval_comparison_expression(
             let (l, r): (Vec<u16>, Vec<u16>) = (l.encode_utf16().collect(), r.encode_utf16().collect());
             compare!(l, r)
         }
-        (ConstantValue::NullPointer, ConstantValue::NullPointer) => compare!((), ()),
+        // pointers are not ordered (see emit_binary_expression): only "==" and "!=" are defined for null
+        (ConstantValue::NullPointer, ConstantValue::NullPointer)
+            if matches!(op, ComparisonOp::Equal | ComparisonOp::NotEqual) =>
+        {
+            compare!((), ())
+        }
+        (left @ ConstantValue::NullPointer, ConstantValue::NullPointer) => Err(
+            ExpressionError::OperationOnUnsupportedType(op.to_string(), left.type_desc()),
+        ),
         (left, right) => Err(ExpressionError::OperationOnIncompatibleTypes(
             op.to_string(),
             left.type_desc(),
